@@ -83,12 +83,30 @@ CAPS_QUICK = [0, 2, 3]       # extra RTCD levels (fraction of the cases); the un
 CAPS_THOROUGH = [0, 1, 2, 3, 4]
 
 
+def _harness(ctx, name, variant, opt):
+    """ctx.harness, robust against the shared library cache being pruned by a concurrent run (keep=8 in common.py):
+    if the archive vanished between build_lib and the link, rebuild it once."""
+    for attempt in (0, 1, 2):
+        try:
+            lib = ctx.lib(variant)
+            if not os.path.exists(lib.a):
+                raise RuntimeError('cannot find %s' % lib.a)
+            os.utime(lib.dir)
+            return ctx.harness(name, [name + '.c'], variant=variant, extra=_WRAP, opt=opt)
+        except RuntimeError as e:
+            if attempt == 2 or 'libopus.a' not in str(e):
+                raise
+            ctx._libs.pop(variant, None)
+            import shutil
+            shutil.rmtree(os.path.join(common.CACHE, 'lib', '%s-%s' % (common.repo_hash(), variant)), ignore_errors=True)
+
+
 def _twin(ctx, variant='plain'):
-    return ctx.harness('c12_twin', ['c12_twin.c'], variant=variant, extra=_WRAP, opt='-O2' if variant == 'plain' else '-O1')
+    return _harness(ctx, 'c12_twin', variant, '-O2' if variant == 'plain' else '-O1')
 
 
 def _state(ctx, variant='plain'):
-    return ctx.harness('c12_state', ['c12_state.c'], variant=variant, extra=_WRAP, opt='-O1')
+    return _harness(ctx, 'c12_state', variant, '-O1')
 
 
 # ------------------------------------------------------------------ S0: cross-check with the debug information
